@@ -99,23 +99,35 @@ class GrammarParser:
             a, z = self._parse_rhs()
             self._expect(PythonTokenTypes.OP, ']')
             # Make it also possible that there is no token and change the
-            # state.
-            a.add_arc(z)
-            return a, z
+            # state. This needs new states, otherwise the shortcut could be
+            # combined with a loop at the start or the end of the optional
+            # part (e.g. `[x y*]` would accept `y`).
+            aa = NFAState(self._current_rule_name)
+            zz = NFAState(self._current_rule_name)
+            aa.add_arc(a)
+            aa.add_arc(zz)
+            z.add_arc(zz)
+            return aa, zz
         else:
             a, z = self._parse_atom()
             value = self.value
             if value not in ("+", "*"):
                 return a, z
             self._gettoken()
-            # Make it clear that we can go back to the old state and repeat.
-            z.add_arc(a)
             if value == "+":
+                # Make it clear that we can go back to the old state and
+                # repeat.
+                z.add_arc(a)
                 return a, z
             else:
-                # The end state is the same as the beginning, nothing must
-                # change.
-                return a, a
+                # The end state is the same as the beginning. This needs to be
+                # a new state, otherwise a loop at the start of the repeated
+                # part could be used after leaving it (e.g. `(x* y)* z` would
+                # accept `x z`).
+                aa = NFAState(self._current_rule_name)
+                aa.add_arc(a)
+                z.add_arc(aa)
+                return aa, aa
 
     def _parse_atom(self):
         # atom: '(' rhs ')' | NAME | STRING
